@@ -44,6 +44,7 @@ const (
 )
 
 type ent struct {
+	item   string // loop item ("" if the entry is not looped)
 	e      *Entry
 	idx    int // entry index in the task
 	cid    string
@@ -193,7 +194,7 @@ func (m *Model) expand(i *Inst) {
 			if it != "" {
 				cid += "." + it
 			}
-			en := &ent{e: e, idx: k, cid: cid}
+			en := &ent{e: e, idx: k, cid: cid, item: it}
 			switch e.Kind {
 			case Call:
 				en.callee = m.inst(i, e.Ref, it, "call")
@@ -731,6 +732,9 @@ func (m *Model) payload(ev Event, s slot) *V {
 	}
 	if want == "" && s.i.T.UsesX {
 		want = m.P.EnvX // X was not passed: the task sees the process environment's X, if any
+	}
+	if s.e.e.AsX && s.i.T.UsesX {
+		want = s.e.item // inside a loop whose iterator is called X
 	}
 	if ev.X != want {
 		return &V{Rule: "PAYLOAD.var", Tags: "run=" + s.i.T.Run.String(), Props: []string{"C02", "C06"},
